@@ -1,6 +1,6 @@
 SPECIFICATION Spec
-CONSTANTS Kinds = {"rm", "rcm"} MaxR = 2 MaxC = 1 MaxLate = 1 MaxClose = 2 GraceSet = {2} MaxT = 3
+CONSTANTS Kinds = {"rm", "rcm"} MaxR = 2 MaxC = 1 MaxLate = 1 MaxClose = 2 GraceSet = {0, 2} MaxT = 3
   RClasses = {"nil", "err", "canceled", "deadline", "wcanceled"} CClasses = {"nil", "err", "kcanceled", "kraw"}
-  AtomicAddCloser = TRUE GraceRecheck = TRUE Monitor = TRUE Defect = "none"
+  AtomicAddCloser = TRUE GraceRecheck = TRUE ReleaseBeforeStart = TRUE Monitor = TRUE Defect = "none"
 INVARIANTS NotBad ClosersAfterRunners StoppedLast
 CHECK_DEADLOCK FALSE
